@@ -37,8 +37,13 @@ def main():
     mutate(r_ok, "run-negative-entry", lambda e: e["factors"][2]["cols"][1].update(minsign=-1))
     mutate(r_ok, "run-unrequested-mode-negative-is-fine", lambda e: e["factors"][1]["cols"][0].update(minsign=-1))
     mutate(r_ok, "run-fixed-mode-of-builtin-start-negative", lambda e: e["factors"][0]["cols"][0].update(minsign=-1))
-    mutate(r_ok, "run-fixed-mode-of-user-start-negative-is-fine",
-           lambda e: (e["run"].update(init="user"), e["factors"][0]["cols"][0].update(minsign=-1)))
+    u_ok = c11.exec_run({"id": "run-user-ok", "op": "run", "n": 3, "items": dict_nn, "seed": 5,
+                         "run": {"shape": [3, 4, 2], "rank": 2, "init": "feasible", "outer": 2, "inner": 10, "data": "signed",
+                                 "fixed": [0], "via": "function", "scale": 0, "dtype": "float64", "tol": "default"}})
+    evs.append(u_ok)
+    mutate(u_ok, "run-fixed-mode-supplied-feasible-returned-negative", lambda e: e["factors"][0]["cols"][0].update(minsign=-1))
+    mutate(u_ok, "run-fixed-mode-supplied-infeasible-is-fine",
+           lambda e: (e["start"][0]["cols"][0].update(minsign=-1), e["factors"][0]["cols"][0].update(minsign=-1)))
     mutate(r_ok, "run-float32-huge-scale-out-of-domain", lambda e: e["run"].update(scale=40))
     mutate(r_ok, "run-last-mode-fixed-out-of-domain", lambda e: e["run"].update(fixed=[2]))
     mutate(r_ok, "run-nan-factor", lambda e: e["factors"][2].update(finite=False))
@@ -47,7 +52,7 @@ def main():
     mutate(p_ok, "prox-negative-entry", lambda e: e["factor"]["cols"][0].update(minsign=-1))
     rej = {rid: clause for rid, clause, _ in chk.validate("ConstraintsTrace", evs)}
     expect_ok = {"map-ok", "map-reject-ok", "run-ok", "run-unrequested-mode-negative-is-fine",
-                 "run-fixed-mode-of-user-start-negative-is-fine", "prox-ok"}
+                 "run-fixed-mode-supplied-infeasible-is-fine", "prox-ok", "run-user-ok"}
     bad = 0
     for e in evs:
         got = rej.get(e["id"], "ok")
